@@ -228,13 +228,7 @@ def rules(ctx: Ctx) -> None:
                "each part of a dotted qualifier loses its own quotes before the parts are joined (a composite like \"db\".\"sch\" handed to the normaliser only loses its outer quotes)")
 
     # ---- R07.4 = R05.2 --------------------------------------------------------------------------------
-    from . import c05
-
-    sub = Ctx(ctx.pid, ctx.tier, prog, ctx.repo)
-    c05.rules(sub)
-    for o in sub.obligations:
-        if o.rule == "R05.2":
-            ctx.obligations.append(replace(o, rule="R07.4"))
+    _common.import_rules(ctx, "C05", {"R05.2": "R07.4"})
     # the sqlparse-based analyzer strips comments before parsing (its anchor for comment insensitivity)
     sp = prog.fn("SqlParseLineageAnalyzer.analyze")
     ctx.ob("R07.1", "sqlparse-analyzer-strips-comments-first", any(_common.strips_comments(prog, sp, k) for k in prog.walk_fn(sp) if isinstance(k, ast.Call)), sp.loc(),
